@@ -119,6 +119,10 @@ example : generateK toyHmac 2 167 140 [0, 79] 0 [] 20 = some (.ok 93) ∧
     generateK toyHmac 2 167 140 [0, 79] 2 [9] 20 = some (.ok 31) ∧
     Rfc.stream toyHmac 2 167 140 [0, 79] [] 0 = 93 := by decide +kernel
 
+/-- non-vacuity on a non-byte-aligned order: q = 263 (9 bits, rolen = 2, one 2-byte block, T shifted by 7) -/
+example : generateK toyHmac 2 263 200 [255, 79, 3] 0 [] 30 = some (.ok 24) ∧
+    Rfc.stream toyHmac 2 263 200 [255, 79, 3] [] 0 = 24 ∧ Rfc.qlen 263 = 9 := by decide +kernel
+
 /-! ## the retry loop of `sign_digest_deterministic` -/
 
 /-- **next candidate on r = 0 / s = 0.**  If deterministic signing returns a signature, then for some
@@ -198,9 +202,36 @@ theorem source_generate_k_loops (hmac : Bytes → Bytes → Bytes) (order qlen r
         | .ok secret =>
           if Gen.Rfc.generate_k_accept secret order = 1 then
             if Gen.Rfc.generate_k_return_now retry = 1 then some (.ok secret)
-            else hLoop hmac order qlen rolen fuel (hmac k (v ++ [0])) (hmac (hmac k (v ++ [0])) v) (Gen.Rfc.generate_k_retry_next retry)
-          else hLoop hmac order qlen rolen fuel (hmac k (v ++ [0])) (hmac (hmac k (v ++ [0])) v) retry) :=
+            else hLoop hmac order qlen rolen fuel (hmac k (v ++ [Rfc.gbyte Gen.Rfc.generate_k_step_h_byte])) (hmac (hmac k (v ++ [Rfc.gbyte Gen.Rfc.generate_k_step_h_byte])) v) (Gen.Rfc.generate_k_retry_next retry)
+          else hLoop hmac order qlen rolen fuel (hmac k (v ++ [Rfc.gbyte Gen.Rfc.generate_k_step_h_byte])) (hmac (hmac k (v ++ [Rfc.gbyte Gen.Rfc.generate_k_step_h_byte])) v) retry) :=
   ⟨Rfc.h2Loop_source hmac k rolen fuel v t, Rfc.hLoop_source hmac order qlen rolen fuel k v retry⟩
+
+/-- the whole body of `generate_k` before step H: sizes, the `bx` tuple in source order, and steps B–G with the
+source's byte constants (`b"\\x01" * holen`, `b"\\x00" * holen`, separators 0x00 in step D and 0x01 in step F); the
+statement structure of B–G and the signature `(order, secexp, hash_func, data, retry_gen=0, extra_entropy=b'')` are pinned
+textually by gen_rand.py, so every statement of `generate_k` is now either translated or pinned -/
+theorem source_generate_k_init (hmac : Bytes → Bytes → Bytes) (holen order secexp : Nat) (data : Bytes) (retry : Int)
+    (extra : Bytes) (fuel : Nat) (bx : Bytes) :
+    (initKV hmac holen bx =
+      (let v := List.replicate holen (Rfc.gbyte Gen.Rfc.generate_k_init_v_byte)
+       let k := List.replicate holen (Rfc.gbyte Gen.Rfc.generate_k_init_k_byte)
+       let k := hmac k (v ++ [Rfc.gbyte Gen.Rfc.generate_k_step_d_byte] ++ bx)
+       let v := hmac k v
+       let k := hmac k (v ++ [Rfc.gbyte Gen.Rfc.generate_k_step_f_byte] ++ bx)
+       let v := hmac k v
+       (k, v))) ∧
+    (generateK hmac holen order secexp data retry extra fuel =
+      (let qlen := (Gen.Rfc.generate_k_qlen order bitLengthInt).toNat
+       let rolen := (Gen.Rfc.generate_k_rolen qlen).toNat
+       match Util.numberToString secexp order with
+       | .error e => some (.error e)
+       | .ok bx0 =>
+         match bits2octets data order with
+         | .error e => some (.error e)
+         | .ok bx1 =>
+           let kv := initKV hmac holen (bx0 ++ bx1 ++ extra)
+           hLoop hmac order qlen rolen fuel kv.1 kv.2 retry)) :=
+  ⟨Rfc.initKV_source hmac holen bx, Rfc.generateK_source hmac holen order secexp data retry extra fuel⟩
 
 theorem source_retry_loop {σ : Type} (hmac : Bytes → Bytes → Bytes) (holen order secexp : Nat) (digest extra : Bytes)
     (sign : Nat → Res σ) (kfuel fuel : Nat) :
